@@ -15,6 +15,10 @@
                       are fresh copies too (leaves stay shared); list/dict steps are shallow copies.
        "nocopy_list"  NEGATIVE INSTANCE: a list step forgets `.copy()` and writes into the caller's list.
        "nocopy_attr"  NEGATIVE INSTANCE: an attribute step sets the attribute on the caller's object.
+       "lookup_default" NEGATIVE INSTANCE: the top-down walk looks a missing final dict key up with
+                      setdefault(key, None): the caller's dict gains a spurious `key: None` entry, the result is right.
+   With CreateNew the call may also address a slot that does not exist yet (create_new_ok=True): a new attribute of an
+   object or a new key of a dict, as the LAST step of the path (the API has no list append: an index must exist).
    Property C40 (all three clauses hold for both positive modes and for every earlier root as well):
        Persistent       no node reachable from any root the caller holds ever changes (same ids, same contents)
        OnlyPathChanged  the returned graph is the substitution old[path := v], nothing else differs
@@ -26,7 +30,8 @@ CONSTANTS MaxDepth,     \* initial objects: every object whose tree has this dep
           Mode,
           ShareSet,     \* subset of BOOLEAN: TRUE = equal subtrees of the initial object are ONE node (aliasing)
           NegIdx,       \* also address list items by negative index
-          Rich          \* larger alphabet of node shapes (second class, two-key dicts)
+          Rich,         \* larger alphabet of node shapes (second class, two-key dicts)
+          CreateNew     \* also make calls with create_new_ok=True that create an attribute / a dict key
 
 VARIABLES heap, roots, prev, last
 vars == << heap, roots, prev, last >>
@@ -95,7 +100,19 @@ Rebuild(h, n, path, v) ==
              j    == Pos(h[n], lab)
              inPlace == \/ Mode = "nocopy_list" /\ lab[1] = "idx"
                         \/ Mode = "nocopy_attr" /\ lab[1] = "attr"
-         IN  Bind(Rebuild(h, h[n].kids[j][2], Tail(path), v), LAMBDA r :
+         IN  IF j = 0
+             \* the slot does not exist yet (create_new_ok; only ever the last step of the path)
+             THEN IF Mode = "lookup_default" /\ lab[1] = "key"
+                  \* the walk has inserted `key: None` into the CALLER's dict; from here on the key exists
+                  THEN LET hN == Append(h, Node("leaf", "NoneType", 0, << >>))
+                           hM == [ hN EXCEPT ![n].kids = Append(@, << lab, Len(hN) >>) ]
+                       IN  Rebuild(hM, n, path, v)
+                  ELSE IF Mode = "obj_deep" /\ lab[1] = "attr"
+                  THEN Bind(SiblingCopies(h, h[n].kids, 1, << >>, 0, v),
+                            LAMBDA s : << Append(s[1], [ h[n] EXCEPT !.kids = Append(s[2], << lab, v >>) ]), Len(s[1]) + 1 >>)
+                  ELSE << Append(h, [ h[n] EXCEPT !.kids = Append(@, << lab, v >>) ]), Len(h) + 1 >>   \* fresh copy + new slot
+             ELSE
+             Bind(Rebuild(h, h[n].kids[j][2], Tail(path), v), LAMBDA r :
                IF inPlace
                THEN << [ r[1] EXCEPT ![n].kids[j] = << lab, r[2] >> ], n >>                \* writes into the caller's node
                ELSE IF Mode = "obj_deep" /\ lab[1] = "attr"
@@ -115,9 +132,19 @@ Init == \E s \in RootShapes, sh \in ShareSet :
 RawPaths(h, r) == LET P == PathsFrom(h, r)
                   IN  IF NegIdx THEN P \cup { NegPath(h, r, p) : p \in P } ELSE P
 
+\* paths that end in a slot which does not exist yet: a new attribute of any object / a new key of any dict on the way
+NewSlotPaths(h, r) ==
+    LET Holders == { << >> } \cup PathsFrom(h, r)
+        Fresh(p) == LET k == h[NodeAt(h, r, p)].kind
+                    IN  IF k = "obj" THEN { p \o << Attr("_new") >> } ELSE IF k = "dict" THEN { p \o << Key("new") >> } ELSE {}
+    IN  UNION { Fresh(p) : p \in Holders }
+CallPaths(h, r) == RawPaths(h, r) \cup (IF CreateNew THEN NewSlotPaths(h, r) ELSE {})
+
 ASet(i, path, vs) ==
     LET old == roots[i] IN
-    /\ ValidPath(heap, old, path)
+    \* compared with TRUE so that TLC evaluates the guard as a value: it would otherwise branch on the disjunction inside
+    \* ValidPathNew and generate every successor for an existing slot twice
+    /\ (IF CreateNew THEN ValidPathNew(heap, old, path) ELSE ValidPath(heap, old, path)) = TRUE
     /\ \E b \in { Build([ h |-> heap, memo |-> << >> ], vs, FALSE) } :
        \E r \in { Rebuild(b.h, old, path, b.id) } :
         /\ prev' = b.h
@@ -126,10 +153,13 @@ ASet(i, path, vs) ==
         /\ last' = [ old |-> old, new |-> r[2], path |-> path, v |-> b.id ]
 
 Next == /\ Len(roots) <= MaxUpdates
-        /\ \E i \in 1..Len(roots) : \E path \in RawPaths(heap, roots[i]) : \E vs \in NewValues : ASet(i, path, vs)
+        /\ \E i \in 1..Len(roots) : \E path \in CallPaths(heap, roots[i]) : \E vs \in NewValues : ASet(i, path, vs)
 Spec == Init /\ [][Next]_vars
 
 \* ---------- properties ----------
+\* the last call created a slot (its path was not valid in the heap it was made on)
+LastCreated == last # NoUpdate /\ ~ValidPath(prev, last.old, last.path)
+
 TypeOK == /\ \A n \in 1..Len(heap) : heap[n].kind \in {"obj", "list", "dict", "leaf"} /\ KidIds(heap[n]) \subseteq 1..Len(heap)
           /\ \A i \in 1..Len(roots) : roots[i] \in 1..Len(heap)
           /\ Len(prev) <= Len(heap)
@@ -145,6 +175,8 @@ PathOnly == last # NoUpdate => OnlyPathChanged(prev, heap, last.old, last.new, l
 TypeKept == last # NoUpdate => SameType(prev, heap, last.old, last.new, last.path)
 \* the value handed in is used as it is and not modified either
 ValueUntouched == last # NoUpdate => OrigUnchanged(prev, heap, last.v)
+\* a call that creates a slot really adds it: the addressed path exists in the result
+NewSlotAdded == LastCreated => ValidPath(heap, last.new, CanonPath(prev, last.old, last.path))
 \* the result is a new object (never the caller's), and in the path-copying mode exactly the spine is fresh
 ResultFresh == last # NoUpdate => last.new > Len(prev)
 SpineOnly == (last # NoUpdate /\ Mode = "spine") => Len(heap) = Len(prev) + Len(last.path)
